@@ -84,6 +84,9 @@ func c09DrawAttrs(t *rapid.T, l string, srcKind int, g rsGlobal, v6 bool, target
 	}
 	if v6 {
 		a.NextHop = rapid.SampledFrom([]string{"2001:db8::1", "2001:db8::2"}).Draw(t, l+"nh")
+		if rapid.IntRange(0, 2).Draw(t, l+"ll") == 0 {
+			a.LinkLocal = "fe80::1:2"
+		}
 	} else {
 		a.NextHop = rapid.SampledFrom([]string{"192.0.2.1", "192.0.2.2"}).Draw(t, l+"nh")
 	}
@@ -122,7 +125,7 @@ func c09DrawAttrs(t *rapid.T, l string, srcKind int, g rsGlobal, v6 bool, target
 }
 
 func drawC09(t *rapid.T) c09Case {
-	c := c09Case{Global: rsGlobal{Confed: rapid.IntRange(0, 3).Draw(t, "confed") == 0}}
+	c := c09Case{Global: rsGlobal{Confed: rapid.IntRange(0, 3).Draw(t, "confed") == 0, NoClusterID: rapid.Bool().Draw(t, "no_cluster_id")}}
 	kinds := []int{rsEBGP, rsEBGP, rsIBGP, rsRRClient}
 	if c.Global.Confed {
 		kinds = append(kinds, rsConfed, rsConfed)
@@ -266,6 +269,9 @@ func runC09(t *testing.T) func(c c09Case, st *verifkit.Stats) *verifkit.Failure 
 						found = true
 						got, _ := rsFromWire(paths[0].Attrs)
 						exp := rsCloneAttrs(r.Attrs) // the Adj-RIB-In holds the route as it was received
+						// (the link-local next hop of a neighbour is only meaningful on that link: gobgp drops it on
+						// receipt, RFC 2545 section 3 forbids passing it on; it is not part of what is compared)
+						exp.LinkLocal, got.LinkLocal = "", ""
 						if !src.internal() {
 							// LOCAL_PREF from an external peer is ignored on ingress; whether the stored copy still shows it is not specified
 							exp.LocalPref, got.LocalPref = -1, -1
